@@ -4,7 +4,10 @@
 #include "lib.h"
 #include "oracle.h"
 
-typedef enum { K_BAA, K_BBB, K_BBC, K_X2_1COL, K_X2_2COLS, N_KERNELS } q120_kernel_t;
+// K_BBC_OLD / K_X2_2COLS_OLD: exported kernels kept "for history" (one implementation each: ref resp. avx2)
+typedef enum { K_BAA, K_BBB, K_BBC, K_X2_1COL, K_X2_2COLS, K_BBC_OLD, K_X2_2COLS_OLD, N_KERNELS } q120_kernel_t;
+// 1 when kernel k exists in the ref (avx2=0) / avx2 (avx2=1) flavour
+static inline int q120_kernel_has(q120_kernel_t k, int avx2) { return k == K_BBC_OLD ? !avx2 : (k == K_X2_2COLS_OLD ? avx2 : 1); }
 extern const char* const q120_kernel_name[N_KERNELS];
 
 // operand families
